@@ -216,3 +216,49 @@ func engineResetTableChecks(c *caseCtx, prop string) {
 	}
 	fmt.Printf("COUNT enginetable %d\n", n)
 }
+
+// manyNewGamesChecks (C18, C11): however many games an engine has set up before, a new game starts from an
+// empty table - the first search of game k returns what a fresh engine returns: score, principal variation
+// AND node count. The distance between the two searches of the same position runs to 256 new games because
+// generation counters of 6 or 8 bits wrap there.
+func manyNewGamesChecks(c *caseCtx, prop string) {
+	ctx := context.Background()
+	mk := func() *engine.Engine {
+		root := search.AlphaBeta{Eval: search.Leaf{Eval: eval.Material{}}}
+		return engine.New(ctx, "morlock", "t", root, engine.WithOptions(engine.Options{Hash: 1}))
+	}
+	last := func(e *engine.Engine, f string, d uint) (string, bool) {
+		a, _, ok := analyse(ctx, e, f, nil, d)
+		if !ok || len(a.lines) == 0 {
+			return "", false
+		}
+		return a.lines[len(a.lines)-1], true
+	}
+	n := 0
+	for _, target := range []string{
+		"r3k2r/p1ppqpb1/bn2pnp1/3PN3/1p2P3/2N2Q1p/PPPBBPPP/R3K2R w KQkq - 0 1",
+		"8/2p5/3p4/KP5r/1R3p1k/8/4P1P1/8 w - - 0 1",
+	} {
+		want, ok := last(mk(), target, 3)
+		if !ok {
+			continue
+		}
+		// one engine per distance: a search, then P-1 new games in which that position is not searched
+		// (a search of the same position would overwrite what the first one left), then the position again
+		for _, p := range []int{1, 2, 3, 4, 5, 8, 16, 32, 64, 128, 256} {
+			e := mk()
+			if _, ok := last(e, target, 3); !ok {
+				continue
+			}
+			for k := 1; k < p; k++ {
+				_ = e.Reset(ctx, fen.Initial)
+			}
+			n++
+			if got, ok := last(e, target, 3); ok && got != want {
+				fmt.Printf("IMPLVIOL manygames fen=%q depth=3 games=%d :: an engine that searched this position %d new games ago now reports %s for it, a fresh engine %s (depth:nodes:score:pv) prop=%s key=table-across-games\n", target, p, p, got, want, prop)
+				break
+			}
+		}
+	}
+	fmt.Printf("COUNT manygames %d\n", n)
+}
